@@ -702,9 +702,30 @@ package core
 // The full kill of a fork's files happens only when the fork is disabled or no consumer of
 // its file outputs is left waiting (filePostNodes empty); finished consumers are the only
 // ones handed to removeFilePostNodes.
-//@ func core.Fork.vdrKill property C04
+//@ func core.PipestanceOverrides.GetForceVolatile property C04 C14
 //@   trusted
+//@   pure
+//@   opt deterministic on
+//@ func core.Fork.isVolatile property C04 C14
+//@   trusted
+//@   pure
+//@   opt deterministic on
+//@ func core.Node.GetFQName property C04 C14
+//@   trusted
+//@   pure
+//@   opt deterministic on
+// A full kill removes the chunk-level files only of a stage that SPLITS: the single chunk of a
+// non-splitting stage writes straight into the stage's own files directory, so for a stage that
+// neither splits nor is (forced) volatile a kill removes nothing at all.
+//@ func core.Fork.vdrKill property C04 C14
 //@   requires @nokeeper fn(core.Fork.getState, self) == "disabled" || len(self.filePostNodes) == 0
+//@   requires self != nil && self.node != nil && self.node.top != nil && self.node.top.rt != nil && self.node.top.rt.Config != nil
+//@   let VOL = fn(core.PipestanceOverrides.GetForceVolatile, self.node.top.rt.overrides, fn(core.Node.GetFQName, self.node), fn(core.Fork.isVolatile, self))
+//@   ensures @nonsplit !VOL && !fn(core.Fork.Split, self) ==> ghost(removed) == old(ghost(removed))
+//@   loop 1 invariant ghost(removed) == old(ghost(removed)) && fn(core.Fork.Split, self)
+//@   loop 2 invariant ghost(removed) == old(ghost(removed))
+//@   loop 3 invariant fn(core.Fork.Split, self) || len(killPaths) == 0
+//@   loop 3 invariant !fn(core.Fork.Split, self) ==> ghost(removed) == old(ghost(removed))
 
 //@ callers core.Fork.vdrKill property C04 : core.Fork.partialVdrKill
 
@@ -1144,3 +1165,41 @@ package core
 //@   loop 2 invariant forall k string, n core.Nodable :: old(has(fork.fileArgs, k)) && old(fork.fileArgs[k]) != nil ==> has(fork.fileArgs[k], n) == old(has(fork.fileArgs[k], n))
 //@   loop 2 invariant forall k string, n core.Nodable :: has(nf.fileArgs, k) && nf.fileArgs[k] != nm ==> has(nf.fileArgs[k], n) == atloop(has(nf.fileArgs[k], n))
 //@   loop 4 invariant forall n core.Nodable, a string :: has(nf.filePostNodes, n) && nf.filePostNodes[n] != nm ==> has(nf.filePostNodes[n], a) == atloop(has(nf.filePostNodes[n], a))
+
+// ---------------------------------------------------------------- C14 / C04 which files a kept output protects
+// anyOverlap(names, files): a reported overlap is a member of files that IS one of the
+// names, or lies under it, or contains it - always at a path-separator boundary (a file whose
+// path merely starts with the same characters as a kept output is not protected by it); and
+// when nothing is reported no member of files equals or lies on the path of any name.
+//@ func core.anyOverlap property C14 C04
+//@   requires forall j :: 0 <= j && j < len(names) ==> !hassuffix(names[j], "/") && names[j] != ""
+//@   requires forall f string :: has(files, f) ==> !hassuffix(f, "/")
+//@   ensures @sound result.0 != "" ==> has(files, result.0) && (result.0 == result.1 || hasprefix(result.1, result.0 + "/") || hasprefix(result.0, result.1 + "/"))
+//@   ensures @named result.0 != "" ==> exists j :: 0 <= j && j < len(names) && names[j] == result.1
+//@   ensures @complete result.0 == "" && result.1 == "" ==> forall j, f string :: 0 <= j && j < len(names) && has(files, f) ==> names[j] != f && !hasprefix(names[j], f + "/") && !hasprefix(f, names[j] + "/")
+//@   loop 1 invariant 0 <= iter && iter <= len(names) && forall j :: 0 <= j && j < iter ==> !has(files, names[j])
+//@   loop 2 invariant 0 <= iter && iter <= len(names) && forall j :: 0 <= j && j < len(names) ==> !has(files, names[j])
+//@   loop 2 invariant forall j, f string :: 0 <= j && j < iter && has(files, f) ==> !hasprefix(names[j], f + "/") && !hasprefix(f, names[j] + "/")
+//@   loop 3 invariant forall j :: 0 <= j && j < len(names) ==> !has(files, names[j])
+//@   loop 3 invariant forall f string :: visited(f) ==> !hasprefix(name, f + "/") && !hasprefix(f, name + "/")
+
+// ---------------------------------------------------------------- C04 an output keeps its files alive unless it really names none
+// Ghost event: argdropped[a] counts Fork.removeFileArg(a).  After a job completes, an
+// argument is dropped from the keep-alive table only when the value found at its PATH in the
+// outputs (arguments bound to a struct member are dotted paths) contains no file name.
+//@ func core.Fork.removeFileArg property C04
+//@   trusted
+//@   effect argdropped arg
+//@ func core.LazyArgumentMap.jsonPath property C04
+//@   trusted
+//@   pure
+//@   opt deterministic on
+//@ func core.getMaybeFileNames property C04
+//@   trusted
+//@   pure
+//@   opt deterministic on
+//@ func core.Fork.removeEmptyFileArgs property C04
+//@   requires self != nil && !held(self.storageLock)
+//@   ensures @onlyempty forall a string :: ghost(argdropped)[a] > old(ghost(argdropped)[a]) ==> len(fn(core.getMaybeFileNames, fn(core.LazyArgumentMap.jsonPath, outs, a))) == 0
+//@   loop 1 invariant forall a string :: ghost(argdropped)[a] > old(ghost(argdropped)[a]) ==> len(fn(core.getMaybeFileNames, fn(core.LazyArgumentMap.jsonPath, outs, a))) == 0
+//@   loop 1 invariant held(self.storageLock)
